@@ -37,6 +37,10 @@ type callRec struct {
 	Removed  bool
 	Err      string
 	Returned bool
+	// LogCall / LogRet: length of the file-system mutation log when the call
+	// was invoked / returned (crash scenarios)
+	LogCall int
+	LogRet  int
 }
 
 func (r callRec) String() string {
@@ -268,8 +272,38 @@ func execStore(t *testing.T, sc *ConcScenario, choose chooser) *execResult {
 	if w.ledger != nil {
 		w.initLocs = w.locateAll()
 	}
+	var cj *crashJob
+	if sc.Extra["crash"] == true {
+		// everything the initial state holds is flushed; the crash points of
+		// the concurrent phase start here
+		if err := w.S.Flush(); err != nil {
+			w.Close()
+			res.outcome = "init-failed"
+			return res
+		}
+		cj = &crashJob{cfg: sc.Cfg, init: copyModel(w.Model), keys: w.Keys, probes: w.Probes}
+		w.FS.StartLog(true)
+		cj.base = w.FS.Base()
+	}
 	s := newSched(sc.Ticks, time.Duration(sc.Tick))
 	recs := make([]callRec, 0, 8)
+	if pre, ok := sc.Extra["pre"].([]Op); ok {
+		// acknowledged but unflushed calls that precede the threads (so that a
+		// Flush thread has something to commit): part of the history, not of
+		// the initial state
+		for _, op := range pre {
+			r := callRec{Thread: 0, Op: op}
+			s.clock++
+			r.Call = s.clock
+			r.LogCall = w.FS.LogLen()
+			w.doCall(op, &r)
+			s.clock++
+			r.Ret = s.clock
+			r.LogRet = w.FS.LogLen()
+			r.Returned = true
+			recs = append(recs, r)
+		}
+	}
 	idxOf := make([][]int, len(sc.Threads))
 	for ti, prog := range sc.Threads {
 		for _, op := range prog {
@@ -284,9 +318,11 @@ func execStore(t *testing.T, sc *ConcScenario, choose chooser) *execResult {
 				r := &recs[idxOf[ti][oi]]
 				s.clock++
 				r.Call = s.clock
+				r.LogCall = w.FS.LogLen()
 				w.doCall(op, r)
 				s.clock++
 				r.Ret = s.clock
+				r.LogRet = w.FS.LogLen()
 				r.Returned = true
 				if w.ledger != nil && op.Kind == OpPut && r.Err == "" {
 					if blk, found, err := w.idx().Get(w.Keys[op.K].Digest); err == nil && found {
@@ -348,6 +384,11 @@ func execStore(t *testing.T, sc *ConcScenario, choose chooser) *execResult {
 		return res
 	}
 	s.releaseAll()
+	if cj != nil {
+		cj.log = append([]vos.Mut(nil), w.FS.Log()...)
+		cj.recs = append([]callRec(nil), recs...)
+		res.crash = cj
+	}
 	if sc.Extra["fsckOnly"] == true {
 		// C07 under engine A: only the files' mutual consistency at
 		// quiescence is this run's business
@@ -627,9 +668,16 @@ func c05Scenarios(tier string) []*ConcScenario {
 		)
 	}
 	var scs []*ConcScenario
-	for _, c := range cfgs {
-		for _, in := range inits {
-			for _, pr := range pairs {
+	if tier == "quick" {
+		// the other primary, immutable mode and one-record files on a subset
+		cfgs = append(cfgs, cfg("cid", false, 8, 48, bigFile), cfg("mh", true, 8, 48, 48), cfg("mh", false, 8, 1, 1))
+	}
+	for ci, c := range cfgs {
+		for ii, in := range inits {
+			for pi, pr := range pairs {
+				if tier == "quick" && ci > 0 && (ii%2 != ci%2 || pi%3 != ci%3) {
+					continue
+				}
 				for _, withFlush := range []bool{false, true} {
 					ths := append([][]Op{}, pr...)
 					if withFlush {
@@ -792,7 +840,7 @@ func c12Scenarios(tier string) []*ConcScenario {
 	var scs []*ConcScenario
 	for pi, p := range progs {
 		for _, selDesc := range []bool{false, true} {
-			if tier == "quick" && (pi == 1 || (selDesc && pi != 0)) {
+			if tier == "quick" && selDesc && pi != 0 && pi != 3 {
 				continue
 			}
 			cc := c
@@ -1447,4 +1495,57 @@ func c07ConcScenarios(tier string) []*ConcScenario {
 		out = append(out, &c)
 	}
 	return out
+}
+
+// c03ConcScenarios: crash points of executions in which a Flush (or a GC
+// cycle) overlaps callers. The initial content is flushed; "pre" leaves one
+// acknowledged, unflushed Put so that the Flush thread has work to commit from
+// its first step on.
+func c03ConcScenarios(tier string) []*ConcScenario {
+	init := []Op{P(0, 1), P(1, 1), opF}
+	pre := []Op{P(4, 1)}
+	progs := [][][]Op{
+		{{opF}, {P(0, 2)}},
+		{{opF}, {R(0)}},
+		{{opF}, {P(0, 2), P(0, 3)}},
+		{{opF}, {P(3, 1)}},
+		{{opF}, {R(0), P(0, 2)}},
+	}
+	gcProgs := [][][]Op{
+		{{{Kind: OpPriGC, A: 0}}, {P(0, 2), opF}},
+		{{{Kind: OpIdxGC, B: true}}, {P(0, 2), opF}},
+	}
+	bound := 2
+	cfgs := []Config{cfg("mh", false, 8, 48, 48), cfg("mh", false, 8, 1, 1)}
+	if tier != "quick" {
+		bound = 3
+		cfgs = append(cfgs, cfg("mh", false, 8, bigFile, bigFile), cfg("cid", false, 8, 48, bigFile))
+		progs = append(progs,
+			[][]Op{{opF, opF}, {P(0, 2), P(1, 2)}},
+			[][]Op{{opF}, {P(0, 2)}, {P(1, 2)}},
+			[][]Op{{opF}, {P(0, 2)}, {R(1)}})
+		gcProgs = append(gcProgs,
+			[][]Op{{{Kind: OpPriGC, A: 0}}, {opF}, {P(0, 2)}},
+			[][]Op{{{Kind: OpIdxGC, B: false}}, {opF}, {P(0, 2)}})
+	}
+	var scs []*ConcScenario
+	add := func(c Config, init, pre []Op, ths [][]Op, b int) {
+		sc := &ConcScenario{Prop: "C03", Cfg: c, Init: init, Threads: ths, Bound: b, Exec: execStore,
+			Extra: map[string]any{"crash": true, "pre": pre}}
+		sc.Name = fmt.Sprintf("c03conc/%s/pre[%s]/%s", c.String(), opsString(pre), progString(ths))
+		sc.Desc = fmt.Sprintf("init [%s] flushed; then [%s] unflushed; %s; crash at every point of the execution", opsString(init), opsString(pre), progString(ths))
+		scs = append(scs, sc)
+	}
+	for _, c := range cfgs {
+		for _, ths := range progs {
+			add(c, init, pre, ths, bound)
+			add(c, init, nil, ths, bound)
+		}
+		// superseded records and freed locations for the collectors
+		gcInit := []Op{P(0, 1), P(1, 1), P(4, 1), opF, P(1, 2), P(4, 2), opF}
+		for _, ths := range gcProgs {
+			add(c, gcInit, nil, ths, bound-1)
+		}
+	}
+	return scs
 }
